@@ -3,6 +3,7 @@
 EXTENDS Timing, Json
 
 R4      == {0, 5, 25, 35}          \* responses: instant, fast, > 2 s, > 2 s + widest gap
+R025    == {0, 25}
 G135    == {1, 3, 5}
 G1235   == {1, 2, 3, 5}
 G0135   == {0, 1, 3, 5}
